@@ -1,6 +1,7 @@
 (* Model of workload/resource.py (Resource) and workload/resources.py (Resources), as the code is
    NOW (allocate_multiple rolls a partial allocation back before re-raising).  No proofs here
-   (Proofs/ResP*.v).
+   (Proofs/ResP*.v).  Follows /repo 0f42ab1 (allocate refuses negative quantities, allocate_multiple
+   registers the computation, __copy__ copies the ledger, __gt__ plays the requests).
 
    ===== EXECUTABLE INTERFACE (stable; other modules import it) =====================================
    rid      := RAny | RId n                 the `_id` of a Resource: "any" or a specific id
@@ -21,7 +22,7 @@
    r_get_allocated_resources R c : res * list (rkey*Z)      the getter (it INSERTS an empty entry: defaultdict)
    r_gt R req  (fit test `self > req`, used by can_accomodate_strategy: the requests played in order on a
                scratch copy, /repo 402c33a), r_gt_per_key (the older per-key test), r_eq, r_empty
-   r_copy R : result res   (__copy__ re-applies every allocation on a fresh vector; can raise)
+   r_copy R : result res   (__copy__ copies the cells and the allocation lists; always Ok since /repo cd7cd87)
    r_deepcopy R : res      (__deepcopy__: totals only)
    r_add A B : res         (__add__)
    Every operation that can raise returns the (possibly partially mutated) state AND the outcome.
@@ -126,7 +127,8 @@ Definition E_ATTRIBUTE : Z := 3.  (* AttributeError *)
 Definition E_KEY : Z := 4.        (* KeyError *)
 
 Definition r_allocate (R : res) (r : rkey) (c : comp) (q : Z) : res * result unit :=
-  if r_available R r <? q then (R, Err E_VALUE)
+  if q <? 0 then (R, Err E_VALUE)
+  else if r_available R r <? q then (R, Err E_VALUE)
   else
     let '(v, recs) := alloc_loop r q (r_avail R) in
     (mkRes v (r_total R) (al_append c recs (r_allocs R)), Ok tt).
@@ -142,22 +144,27 @@ Fixpoint alloc_seq (R : res) (req : rvec) (c : comp) : res * result unit :=
   end.
 
 (* the `except ValueError:` block of allocate_multiple *)
-Definition r_rollback (R : res) (c : comp) (num_previous : nat) : res :=
+Definition r_rollback (R : res) (c : comp) (num_previous : nat) (had_entry : bool) : res :=
   match al_find c (r_allocs R) with
   | None => R
   | Some l =>
       let v := fold_left (fun v kq => vec_add (fst kq) (snd kq) v) (skipn num_previous l) (r_avail R) in
       let a := al_set c (firstn num_previous l) (r_allocs R) in
-      mkRes v (r_total R) (if (num_previous =? 0)%nat then al_remove c a else a)
+      mkRes v (r_total R) (if had_entry then a else al_remove c a)
   end.
+(* `self._current_allocations[computation]` after a successful allocation: the computation is
+   registered even if nothing was recorded *)
+Definition al_register (c : comp) (a : allocs) : allocs :=
+  match al_find c a with Some _ => a | None => a ++ [(c, [])] end.
 
 Definition r_allocate_multiple (R : res) (req : rvec) (c : comp) : res * result unit :=
   if existsb (fun rq => r_available R (fst rq) <? snd rq) req then (R, Err E_VALUE)
   else
     let num_previous := length (al_get c (r_allocs R)) in
+    let had_entry := match al_find c (r_allocs R) with Some _ => true | None => false end in
     match alloc_seq R req c with
-    | (R', Ok _) => (R', Ok tt)
-    | (R', Err e) => (r_rollback R' c num_previous, Err e)
+    | (R', Ok _) => (mkRes (r_avail R') (r_total R') (al_register c (r_allocs R')), Ok tt)
+    | (R', Err e) => (r_rollback R' c num_previous had_entry, Err e)
     end.
 
 Definition r_deallocate (R : res) (c : comp) : res * result unit :=
@@ -208,26 +215,15 @@ Definition r_eq (R : res) (req : rvec) : bool :=
 Definition r_empty (R : res) : bool := forallb (fun kq => snd kq =? 0) (r_avail R).
 Definition r_len (R : res) : Z := Z.of_nat (length (r_avail R)).
 
-(* __copy__ : fresh instance from the totals, every allocation re-applied in dict order *)
-Fixpoint copy_recs (I : res) (c : comp) (l : list (rkey * Z)) : result res :=
-  match l with
-  | [] => Ok I
-  | (k, q) :: l' =>
-      match r_allocate I k c q with
-      | (I', Ok _) => copy_recs I' c l'
-      | (_, Err e) => Err e
-      end
+(* __copy__ (as of /repo cd7cd87): a fresh instance from the totals whose cells are then assigned the
+   available quantities, and a copy of every allocation list; it cannot raise (the result type is kept) *)
+Fixpoint vec_set (k : rkey) (q : Z) (v : rvec) : rvec :=
+  match v with
+  | [] => [(k, q)]
+  | (k', q') :: v' => if rkey_eqb k' k then (k', q) :: v' else (k', q') :: vec_set k q v'
   end.
-Fixpoint copy_allocs (I : res) (a : allocs) : result res :=
-  match a with
-  | [] => Ok I
-  | (c, l) :: a' =>
-      match copy_recs I c l with
-      | Ok I' => copy_allocs I' a'
-      | Err e => Err e
-      end
-  end.
-Definition r_copy (R : res) : result res := copy_allocs (r_new (r_total R)) (r_allocs R).
+Definition r_copy (R : res) : result res :=
+  Ok (mkRes (fold_left (fun v kq => vec_set (fst kq) (snd kq) v) (r_avail R) (r_total R)) (r_total R) (r_allocs R)).
 Definition r_deepcopy (R : res) : res := r_new (r_total R).
 
 (* __add__ *)
